@@ -81,6 +81,10 @@ func (r Wrapper) handleS2SAccessTokenRequest(ctx context.Context, clientID strin
 	if err := pexConsumer.fulfill(*submission, *pexEnvelope); err != nil {
 		return nil, oauthError(oauth.InvalidRequest, err.Error())
 	}
+	// a single submission must fulfill everything the scope requires
+	if _, unfulfilled := pexConsumer.next(); unfulfilled != nil {
+		return nil, oauthError(oauth.InvalidRequest, fmt.Sprintf("presentation definition required by scope is not fulfilled: %s", unfulfilled.Id))
+	}
 
 	for _, presentation := range pexEnvelope.Presentations {
 		if err := r.validateS2SPresentationNonce(presentation); err != nil {
